@@ -22,6 +22,22 @@ CHECKS = {
         note=COMMON_NOTE + " numpy array semantics; FileSet.find on flat templates (property C01).",
         technique="Coq proof (induction over the interval list) + vm_compute correspondence with the implementation",
         design="5/C03"),
+    "C09": dict(
+        text=("The model is REGENERATED from typhon/physics/atmosphere.py on every run by a fail-closed Python-ast -> Coq translator "
+              "(coq/gen/atmosphere.v); 12 theorems over the reals are re-checked against it: the six converters are mutual "
+              "inverses, all two-step routes equal the direct one, 0 -> 0, strictly increasing; Murphy-Koop saturation pressures "
+              "positive and strictly increasing on [100,400] K (derivative sign by interval arithmetic), ice <= liquid(1+1e-6) "
+              "below T_t and equal to 1e-6 at T_t; mixed phase = ice below T_t-23, liquid above T_t, between them everywhere and "
+              "equal to the pure phases at the joints (epsilon-delta continuity is a named gap, hence _partial); guards reject "
+              "T <= 0; RH<->VMR inverse for any saturation function; lapse rate in (0, g/cp] with an explicit bound on its distance "
+              "to g/cp proportional to the saturation mixing ratio. Float behaviour is tied pointwise by interval enclosures proved "
+              "in Coq around the values the implementation returns; a numeric sweep of the stated laws on the implementation "
+              "(plus exact Fraction evaluation of the converters) searches for a failing input whenever an obligation breaks."),
+        note=COMMON_NOTE + " The translator is trusted to render the whitelisted Python subset faithfully (mitigated by the enclosures); "
+             "real-number axioms of the Coq standard library, classic, functional extensionality (Coquelicot) and the primitive "
+             "int/float specifications used by the interval tactic appear in Print Assumptions.",
+        technique="Coq proof over R on a model translated from the source on every run (field/nra/interval/Coquelicot) + interval enclosures",
+        design="5/C09"),
 }
 
 
